@@ -142,6 +142,13 @@ def run(chk):
         elif r.outcome == "return":
             if full is True:
                 chk.check(not gens and r.store[("h", "mix")].fields[fi("last_pos")] is LAST, key + "/full-inert", "a full queue still consumes generator state")
+            else:
+                # the only other reason to queue nothing is that the frame position has not advanced past the last one
+                compared = any(c[0] in ("eq", "ne") and isinstance(c[1], T) and LAST in tm.subterms(c[1]) for c in r.pc) if hasattr(tm, "subterms") else \
+                    any(c[0] in ("eq", "ne") and isinstance(c[1], T) and "mix.last_pos" in tm.syms(c[1]) for c in r.pc)
+                chk.check(compared, key + "/early-exit",
+                          "process returns without queueing samples although the queue is not full and without comparing the frame position with the last one (%s): those samples are later padded with a stale value" % (
+                              [tm.show(c[1])[:70] for c in r.pc if c[0] in ("eq", "ne") and isinstance(c[1], T)][-2:],))
     chk.check(npush >= 1, key + "/explored", "no path of process queues a sample")
     chk.check(forms == {"clamp", "scale"}, "T-GUARD/ZXMixer::sample_count_for_frame_fraction",
               "the frame position takes the forms %s; documented samples_per_frame when now >= 1.0, else (samples_per_frame as f64 * now) as usize" % sorted(forms))
